@@ -1,7 +1,7 @@
 (* ======================================================================================
    Model/Fun2CoreGuard  -  the executable predicates of the preservation theorem for fun2core
    (C02_fun2core_correct_fragment2): names and binders of a term ([nm], [bnd]), the scope check [ws],
-   the former capture guard [nocap] (no longer part of any guard since the repair <commitcap> of the
+   the former capture guard [nocap] (no longer part of any guard since the repair d5d4151 of the
    translation; kept as a definition: the Barendregt condition implies it), the fragment [frag], and the
    program guards [prog_guard] / [frag_prog].  Not models of Rust code; used by the proofs (Proof/Fun2Core*.v) and by modelrun
    (tag proved-fragment2).  No proofs here.
